@@ -281,6 +281,12 @@ func (s *Server[StateT]) handleWriteFile(ctx *Context[StateT]) error {
 	}
 
 	written, err := s.Handler.HandleWriteFile(ctx, data)
+
+	// the announced payload belongs to this request whatever the handler did with it
+	if _, discardErr := io.Copy(io.Discard, data); discardErr != nil {
+		return fmt.Errorf("discard of unread file data failed: %w", discardErr)
+	}
+
 	if err != nil {
 		return ctx.wr.SendWriteFileError()
 	}
